@@ -74,7 +74,8 @@ Definition enc_eqb (a b : Z * Z * list (list byte)) : bool :=
 Record round_case := {
   rc_blob : list byte; rc_k : Z; rc_m : Z;
   rc_enc : enc_obs;                 (* observed result of ErasureCode *)
-  rc_erased : list nat;             (* E *)
+  rc_erased : list nat;             (* E: indices of the lost shards *)
+  rc_empty : list nat;              (* those of E handed over as []byte{} instead of nil *)
   rc_rec : res (list byte);         (* observed result of ReconstructAndJoinShards *)
   rc_post : list shard              (* the caller's shard slice afterwards *)
 }.
@@ -85,7 +86,7 @@ Definition round_corr (c : round_case) : bool :=
   res_eqb enc_eqb (erasure_code (rc_blob c) (rc_k c) (rc_m c)) (rc_enc c) &&
   match rc_enc c with
   | Ok (_, _, shards) =>
-      let '(r, post) := reconstruct_and_join (erase (rc_erased c) shards) (rc_k c)
+      let '(r, post) := reconstruct_and_join (erase_as (rc_erased c) (rc_empty c) shards) (rc_k c)
                           (Z.of_nat (length (rc_blob c))) in
       res_eqb bytes_eqb r (rc_rec c) && shards_eqb post (rc_post c)
   | _ => true
@@ -117,6 +118,14 @@ Definition mon_too_few (c : round_case) : bool :=
   | _ => true
   end.
 
+(* monitor 4: never (no error and bytes different from the original) *)
+Definition mon_no_wrong_data (c : round_case) : bool :=
+  match rc_enc c, rc_rec c with
+  | Ok _, Ok b =>
+      if valid_config (rc_k c) (rc_m c) && erasure_set_ok c then bytes_eqb b (rc_blob c) else true
+  | _, _ => true
+  end.
+
 (* monitor 3: a valid configuration and a non-empty blob are encoded (no error) *)
 Definition mon_encodes (c : round_case) : bool :=
   if valid_config (rc_k c) (rc_m c) && negb (Nat.eqb (length (rc_blob c)) 0)
@@ -131,8 +140,40 @@ Record rec_case := {
   rj_in : list shard; rj_k : Z; rj_out : Z;
   rj_join_only : bool;              (* JoinShards instead of ReconstructAndJoinShards *)
   rj_res : res (list byte);
-  rj_post : list shard
+  rj_post : list shard;
+  rj_ghost : option (list byte * Z)
+     (* known to the harness when the input is "the shards of ErasureCode(blob, k, m) with some
+        of them lost" (nil or empty) and k, blob size are the right ones: (blob, m) *)
 }.
+
+(* lost = nil or zero length *)
+Definition lost_count (l : list shard) : Z :=
+  Z.of_nat (length (filter (fun s => Nat.eqb (slen s) 0) l)).
+
+Definition ghost_applies (c : rec_case) (m : Z) : bool :=
+  negb (rj_join_only c) && valid_config (rj_k c) m &&
+  (Z.of_nat (length (rj_in c)) =? rj_k c + m).
+
+(* monitors 1, 2, 4 on a loss-only case: the property statement with the ghost values *)
+Definition mon_rec_recovers (c : rec_case) : bool :=
+  match rj_ghost c with
+  | Some (blob, m) =>
+      if ghost_applies c m && (lost_count (rj_in c) <=? m)
+      then res_eqb bytes_eqb (rj_res c) (Ok blob) else true
+  | None => true
+  end.
+Definition mon_rec_too_few (c : rec_case) : bool :=
+  match rj_ghost c with
+  | Some (blob, m) =>
+      if ghost_applies c m && (m <? lost_count (rj_in c))
+      then match rj_res c with Err _ => true | _ => false end else true
+  | None => true
+  end.
+Definition mon_rec_no_wrong_data (c : rec_case) : bool :=
+  match rj_ghost c, rj_res c with
+  | Some (blob, m), Ok b => if ghost_applies c m then bytes_eqb b blob else true
+  | _, _ => true
+  end.
 
 Definition rec_corr (c : rec_case) : bool :=
   if rj_join_only c then
@@ -305,8 +346,9 @@ Definition c20_check (c : c20_case) : list Z :=
   match c with
   | CRound c =>
       flag 0 (round_corr c) ++ flag 1 (mon_recovers c) ++ flag 2 (mon_too_few c) ++
-      flag 3 (mon_encodes c) ++ flag 101 (negb (trig_empty_blob c))
-  | CRec c => flag 0 (rec_corr c)
+      flag 3 (mon_encodes c) ++ flag 4 (mon_no_wrong_data c) ++ flag 101 (negb (trig_empty_blob c))
+  | CRec c => flag 0 (rec_corr c) ++ flag 1 (mon_rec_recovers c) ++ flag 2 (mon_rec_too_few c) ++
+              flag 4 (mon_rec_no_wrong_data c)
   | CShuf c => flag 0 (shuf_corr c) ++ flag 5 (mon_indices c) ++ flag 6 (mon_deterministic c) ++
                flag 102 (negb (trig_long_address c))
   | CSubmit c => flag 0 (submit_corr c) ++ flag 7 (mon_accept_iff c) ++ flag 8 (mon_oracle c) ++
